@@ -259,6 +259,7 @@ type qgen struct {
 	r    *rng
 	g    *storeGen
 	mode string
+	all  string // the modes of the whole run ("order+limit+group")
 	hist map[string]int
 	// meta: no LIMIT; the parts of the last generated query are kept for the metamorphic variants (C14)
 	meta     bool
@@ -874,6 +875,7 @@ func (q *qgen) queryText(graphs []string) string {
 	text := fmt.Sprintf("select %s from %s where { %s }", strings.Join(proj, ", "), strings.Join(graphs, ", "), where)
 	q.lastProj, q.lastCls, q.lastTail = proj, cls, ""
 	q.intent = " xc=" + strings.Join(exps, ";") + " xg=" + strings.Join(xgs, ",")
+	var groupKeys []string
 	outs := func() []string {
 		var o []string
 		for _, p := range proj {
@@ -943,6 +945,16 @@ func (q *qgen) queryText(graphs []string) string {
 			}
 			sel, xp = sel2, xp2
 		}
+		if len(keys) > 1 && r.chance(1, 3) {
+			// GROUP BY lists its keys in another order than the SELECT list
+			pm := r.perm(len(keys))
+			k2 := make([]string, len(keys))
+			for i, j := range pm {
+				k2[i] = keys[j]
+			}
+			keys = k2
+		}
+		groupKeys = keys
 		text = fmt.Sprintf("select %s from %s where { %s } group by %s", strings.Join(sel, ", "), strings.Join(graphs, ", "), where, strings.Join(keys, ", "))
 		var xg []string
 		for _, k := range keys {
@@ -955,10 +967,18 @@ func (q *qgen) queryText(graphs []string) string {
 			outs = append(outs, f[len(f)-1])
 		}
 	}
-	if q.mode == "order" || ((q.mode == "group" || q.mode == "having") && r.chance(1, 4)) {
+	if q.mode == "order" || ((q.mode == "group" || q.mode == "having") && (r.chance(1, 4) || (q.mode == "group" && strings.Contains(q.all, "order")))) {
 		var ks []string
 		dir := map[string]string{}
-		for i := 0; i < 1+r.intn(3); i++ {
+		byGroupKeys := len(groupKeys) > 0 && r.chance(1, 3)
+		if byGroupKeys {
+			// ORDER BY exactly the grouping keys, in GROUP BY order, ascending: the grouped rows still have to be sorted
+			for _, k := range groupKeys {
+				ks = append(ks, k+[]string{"", " asc"}[r.intn(2)])
+			}
+			q.hist["order-by-the-group-keys"]++
+		}
+		for i := 0; !byGroupKeys && i < 1+r.intn(3); i++ {
 			k := outs[r.intn(len(outs))]
 			d, seen := dir[k]
 			if !seen {
@@ -1093,7 +1113,7 @@ func cmdQuery(args []string) error {
 	defer fi.Close()
 	r := newRng(envSeed()*2654435761 + uint64(len(*mode))*17)
 	g := &storeGen{r: r, ops: wo, impl: wi, hist: map[string]int{}}
-	q := &qgen{r: r, g: g, mode: *mode, hist: map[string]int{}}
+	q := &qgen{r: r, g: g, mode: *mode, all: *mode, hist: map[string]int{}}
 	names := []string{"?g", "?h", "?i"}
 	rejected := 0
 	for sc := 0; sc < *n; sc++ {
@@ -1141,6 +1161,24 @@ func cmdQuery(args []string) error {
 				if t, err := triple.New(sn, mustImm("p"), triple.NewNodeObject(on)); err == nil && !seen[t.String()] {
 					seen[t.String()] = true
 					g.define(t)
+				}
+			}
+		}
+		// one grouping value in two spellings with another value sorting between them: an anchor at 00:00Z, the same
+		// instant written 01:00+01:00, and 00:30Z (the rows of a group need not be neighbours after the sort)
+		zoneScenario := strings.Contains(*mode, "group") && sc%5 == 3
+		if zoneScenario {
+			base := time.Date(2016, 2, 3, 0, 0, 0, 0, time.UTC)
+			for i, at := range []time.Time{base, base.Add(30 * time.Minute), base.In(time.FixedZone("", 3600)), base.In(time.FixedZone("", -7200)), base.Add(30 * time.Minute).In(time.FixedZone("", 1800))} {
+				for _, id := range []string{"z", "y"} {
+					if id == "y" && i > 1 {
+						continue
+					}
+					t, err := triple.New(mustNode("/u", fmt.Sprintf("n%d", i)), mustTmp(id, at), triple.NewNodeObject(mustNode("/u", []string{"a", "b"}[i%2])))
+					if err == nil && !seen[t.String()] {
+						seen[t.String()] = true
+						g.define(t)
+					}
 				}
 			}
 		}
@@ -1226,6 +1264,15 @@ func cmdQuery(args []string) error {
 					strings.Join(names[:nfrom], ", "), []string{"?sid, ?oid", "?oid, ?sid"}[k])
 				q.intent = ""
 				q.hist["string-keys-with-separator"]++
+			}
+			if zoneScenario && k < 3 {
+				text = []string{
+					"select ?p, count(?s) as ?n, count(distinct ?o) as ?d from %s where { ?s ?p ?o } group by ?p;",
+					"select ?t, count(?s) as ?n from %s where { ?s \"z\"@[?t] ?o } group by ?t;",
+					"select ?p, ?o, count(?s) as ?n from %s where { ?s ?p ?o } group by ?p, ?o order by ?n desc;"}[k]
+				text = fmt.Sprintf(text, strings.Join(names[:ng], ", "))
+				q.intent = ""
+				q.hist["group-key-in-two-zone-spellings"]++
 			}
 			if spaceScenario && k < 5 {
 				cond := []string{`?k = "joe"^^type:text`, `?k = "joe "^^type:text`, `?k < "a"^^type:text`, `?k > ?j`, `not (?j = " zed"^^type:text) or (?k = ?j)`}[k]
